@@ -33,6 +33,9 @@ CONFIGS = {
     "awkward-names": (False, [], [], ["method"], ["a", "b"], [], ["flag"], {"flag"}),
     "keywords-only": (False, [], [], [], [], ["k1", "k2"], ["o1"], {"k2"}),
     "shadowing-names": (False, [], [], ["KWARGS", "TARGS"], [], [], ["type", "subtler_type"], {"type"}),
+    "strict-then-two-optionals": (False, ["ARG1"], [], [], ["a", "b"], [], ["o"], set()),
+    "strict-optional-then-named-optional": (True, ["ARG1"], ["ARG2"], [], ["y"], ["k"], [], {1}),
+    "two-named-optionals": (False, [], [], ["x"], ["a", "b"], [], [], set()),
 }
 
 
@@ -286,6 +289,140 @@ def check_entry(ctx, cfg):
     return problems
 
 
+class _Map(dict):
+    """Stands for OVLD.map: every key is found; the method it returns records how it is called."""
+
+    def __missing__(self, key):
+        return HostFn(lambda *a, **k: ("CALL", key, list(a), dict(k)))
+
+
+def _bind(fnargs, pos, kw):
+    """Python's argument binding for a generated signature (no *args / **kwargs): -> env or an error string."""
+    names_po = [x.arg for x in fnargs.posonlyargs]
+    names = names_po + [x.arg for x in fnargs.args]
+    if len(pos) > len(names):
+        return "too many positional arguments"
+    env = dict(zip(names, pos))
+    kwonly = [x.arg for x in fnargs.kwonlyargs]
+    for k, v in kw.items():
+        if k in names_po:
+            return f"positional-only parameter {k} passed by keyword"
+        if k in env:
+            return f"multiple values for {k}"
+        if k not in names and k not in kwonly:
+            return f"unexpected keyword {k}"
+        env[k] = v
+    ndef = len(fnargs.defaults)
+    for i, n in enumerate(names):
+        if n not in env:
+            j = i - (len(names) - ndef)
+            if j < 0:
+                return f"missing required argument {n}"
+            env[n] = ("default", fnargs.defaults[j])
+    for n, d in zip(kwonly, fnargs.kw_defaults):
+        if n not in env:
+            if d is None:
+                return f"missing required keyword {n}"
+            env[n] = ("default", d)
+    return env
+
+
+def check_call_shapes(ctx, cfg):
+    """Interpret the generated entry point on call shapes: every shape its signature accepts hands the method exactly
+    the arguments supplied (each under its own position / name), selected on a key with one element per supplied
+    argument; shapes made of a prefix of the positionals plus keywords are accepted."""
+    import itertools
+
+    from ..metainterp import _Return
+
+    e = entries(ctx)[cfg]
+    problems = []
+    if e.tree is None or e.fn is None:
+        return [f"the generated entry point does not parse: {e.syntax_error}"]
+    is_method, spr, spo, pr, po, kr, ko, cx = CONFIGS[cfg]
+    P = spr + spo + pr + po
+    nreq = len(spr + pr)
+    fn = e.fn
+    genv = {}
+    for name, v in e.inject.items():
+        genv[name] = HostFn(lambda x, kf=v.__name__: (kf, x)) if isinstance(v, KeyFn) else v
+    hi = HostInterp({}, Record(), {}, globals_env=genv, classes={}, functions={})
+    ovld_names = [x.arg for x in (e.outer.args.posonlyargs + e.outer.args.args)] if e.outer is not fn else []
+    shapes = []
+    for n in range(nreq, len(P) + 1):
+        for r in range(len(ko) + 1):
+            for okw in itertools.combinations(ko, r):
+                shapes.append((n, {}, okw, True))
+        # one named positional beyond the prefix, by keyword
+        for q in (pr + po):
+            if P.index(q) >= n:
+                shapes.append((n, {q: f"v:{q}"}, (), False))
+    n_run = 0
+    for n, extra_kw, okw, must_accept in shapes:
+        if n < nreq and not (set(P[n:nreq]) <= set(extra_kw)):
+            continue
+        pos_vals = (["<self>"] if is_method else []) + [f"v:{p}" for p in P[:n]]
+        kw_vals = {k: f"v:{k}" for k in kr}
+        kw_vals.update({k: f"v:{k}" for k in okw})
+        kw_vals.update(extra_kw)
+        supplied = {p: f"v:{p}" for p in P[:n]}
+        supplied.update({k: v for k, v in kw_vals.items()})
+        env = _bind(fn.args, pos_vals, kw_vals)
+        desc = f"f({', '.join([p for p in P[:n]] + [f'{k}=..' for k in kw_vals])})"
+        if isinstance(env, str):
+            if must_accept:
+                problems.append(f"the call shape {desc} is rejected by the entry point's own signature ({env})")
+            continue
+        env2 = {}
+        for k, v in env.items():
+            env2[k] = hi.ev(v[1], {}) if isinstance(v, tuple) and v and v[0] == "default" else v
+        for o in ovld_names:
+            env2[o] = Record(map=_Map())
+        n_run += 1
+        try:
+            hi.block(fn.body, env2)
+            out = None
+        except _Return as r:
+            out = r.value
+        except Raised as r:
+            out = ("RAISE", r.what)
+        if not (isinstance(out, tuple) and out and out[0] == "CALL"):
+            problems.append(f"for {desc} the entry point does not return the method's call ({out!r})")
+            continue
+        _, key, args, kwargs = out
+        args = list(args)
+        if is_method:
+            if args[:1] != ["<self>"]:
+                problems.append(f"for {desc} the method is not given self first")
+                continue
+            args = args[1:]
+        received = dict(zip(P, args))
+        if len(args) > len(P) or set(received) & set(kwargs):
+            problems.append(f"for {desc} the method receives positionals {args} and keywords {kwargs}")
+            continue
+        received.update(kwargs)
+        if received != supplied:
+            lost = sorted(set(supplied) - set(received))
+            extra = sorted(set(received) - set(supplied))
+            wrong = sorted(k for k in set(received) & set(supplied) if received[k] != supplied[k])
+            problems.append(f"for {desc} the method receives {received}" + (f": {lost} supplied by the caller but dropped" if lost else "") + (f": {extra} not supplied by the caller (placeholder or foreign default)" if extra else "") + (f": {wrong} carry another argument's value" if wrong else ""))
+            continue
+        sup_pos = [p for p in P if p in supplied]
+        if sup_pos != P[: len(sup_pos)]:
+            problems.append(f"{desc} is accepted although an earlier optional positional is omitted")
+            continue
+        key = list(key) if isinstance(key, (tuple, list)) else [key]
+        want_pos = [("subtler_type" if i in cx else "type", supplied[p]) for i, p in enumerate(sup_pos)]
+        want_kw = {(k, ("subtler_type" if k in cx else "type", supplied[k])) for k in supplied if k not in P}
+        got_pos = key[: len(want_pos)]
+        got_kw = set(key[len(want_pos):]) if all(isinstance(x, tuple) for x in key[len(want_pos):]) else None
+        if got_pos != want_pos or got_kw != want_kw:
+            problems.append(f"for {desc} the method is looked up under {key}, expected {want_pos + sorted(want_kw)}")
+    if not n_run:
+        raise AnalysisError(f"[{cfg}] no call shape could be interpreted")
+    return problems
+
+
 def _is_missing_test(t):
     return isinstance(t, ast.Compare) and len(t.ops) == 1 and isinstance(t.ops[0], ast.Is) and dotted(t.comparators[0]) == "MISSING" and isinstance(t.left, ast.Name)
 
@@ -325,6 +462,7 @@ LAW_TEXT = {
     "optional-keywords": ("an optional keyword is forwarded and keyed exactly when it was supplied (is not MISSING)", "an optional keyword is forwarded when it was not supplied (the method sees the placeholder instead of its own default) or dropped when it was"),
     "hand-over": ("the selected method is obtained by subscripting OVLD.map and its call is returned directly", "the entry point post-processes the result, swallows exceptions, or bypasses the table's cache"),
     "per-call-state": ("containers filled during a call are created by the entry point in that call", "per-call containers live outside the call: concurrent or re-entrant calls see each other's keyword arguments"),
+    "call-shapes": ("every call shape the entry point accepts hands the selected method exactly the supplied arguments, each under its own position or name, selected on one key element per supplied argument; every prefix of the positionals with any keywords is accepted (entry point interpreted on the shapes)", "a supplied argument is dropped, displaced or replaced by a placeholder, or the method is selected on other arguments than it is called with"),
     "key-functions": ("every key element is built with the key function the per-position selector chose for that position / name", "a type-valued argument is keyed with the wrong function: a class passed there is looked up as its metaclass (or the reverse)"),
 }
 
@@ -334,6 +472,9 @@ def law(ctx, *names):
     ctx.touch(gen)
     for cfg in CONFIGS:
         probs = check_entry(ctx, cfg)
+        if "call-shapes" in names:
+            probs = dict(probs)
+            probs["call-shapes"] = check_call_shapes(ctx, cfg)
         for name in names:
             text, why = LAW_TEXT[name]
             ps = probs[name]
